@@ -81,6 +81,13 @@ func init() {
 	// C02: readers held across failed transactions keep their snapshot)
 	hx.Registry["c07-fault"] = mkC08("c07-fault", 1, 1<<20)
 	hx.Registry["c02-fault"] = mkC08("c02-fault", 2, 1<<20)
+	hx.Registry["c06-fault"] = func(tier string) []*hx.Scope {
+		scs := mkC08("c06-fault", 1, 1<<20)(tier)
+		for _, s := range scs {
+			s.Boundary = nil // judged by the write monitor (and the allocatable-vs-visible check) alone
+		}
+		return scs
+	}
 	hx.Registry["c12-fault"] = func(tier string) []*hx.Scope {
 		scs := mkC08("c12-fault", 1, 1<<20)(tier)
 		for _, s := range scs {
